@@ -32,6 +32,16 @@ def run(ctx):
                "cmo", "vmmioiommu", "vpciiommu"):
         for _ in range(30 if th else 8):
             subs.append({"fam": "sub", "st": st, "a": schema.gen_args(schema.Rand(rng), schema.STRUCTS[st][0]), "calls": []})
+    src = schema.Rand(rng)
+    for _ in range(60 if th else 20):
+        subs.append({"fam": "sub", "st": "gas", "a": schema.gen(src, "gas"), "calls": []})
+        subs.append({"fam": "sub", "st": "gas_pci", "calls": [], "a": {"width": src.scalar(1), "access": src.choice(schema.ACCESS[1]),
+                     "device": src.scalar(1), "function": src.scalar(1), "register": src.scalar(2)}})
+        subs.append({"fam": "sub", "st": "notif", "a": {"type": src.choice(schema.NOTIF[1])}, "calls": schema.gen(src, "notif")["calls"]})
+        subs.append({"fam": "sub", "st": "rintcaff", "a": schema.gen_args(src, schema.STRUCTS["rintcaff"][0]),
+                     "calls": schema.gen_calls(src, schema.STRUCTS["rintcaff"][1], 3)})
+        subs.append({"fam": "sub", "st": "qos", "a": schema.gen_args(src, schema.STRUCTS["qos"][0]),
+                     "calls": schema.gen_calls(src, schema.STRUCTS["qos"][1], 3)})
     subs = [s for s in subs if "pre" not in s]
     inner += subs
     progs = [{"fam": "sinks", "inner": p} for p in inner]
